@@ -68,6 +68,7 @@ impl Drop for CounterGuard {
 }
 
 fn worker(
+    first: BoxedDispatchable,
     receiver: Receiver<BoxedDispatchable>,
     counter: Arc<AtomicUsize>,
     timeout: Duration,
@@ -75,6 +76,10 @@ fn worker(
     move || {
         // The slot was reserved by `dispatch`.
         let _guard = CounterGuard(counter);
+        // The job this worker was spawned for is handed over directly: sending it through
+        // the rendezvous channel could block forever if this worker's idle timeout expired
+        // before the dispatcher got to send.
+        first.run();
         while let Ok(f) = receiver.recv_timeout(timeout) {
             f.run()
         }
@@ -131,11 +136,11 @@ impl AsyncifyPool {
                         // A worker slot is reserved here, not by the new thread itself:
                         // otherwise concurrent dispatchers all see a free slot.
                         std::thread::spawn(worker(
+                            f,
                             self.receiver.clone(),
                             self.counter.clone(),
                             self.recv_timeout,
                         ));
-                        self.sender.send(f).expect("the channel should not be full");
                         Ok(())
                     }
                 }
